@@ -131,18 +131,25 @@ let check (case : Sexp.t) : unit =
     (match ref_norms inp with
      | None -> unk "norms" "reference norms rejected"
      | Some sf ->
-       (* ---- normalize: row i of the result = row i of the input / s_i up to rounding (zero rows unchanged) ---- *)
+       (* ---- normalize: deciding = row i of the result is a POSITIVE MULTIPLE of row i of the input (matrix row and bias
+          with the same factor, up to the rounding of one division: relative 2^-49); the factor 1/|row| itself is mirror ---- *)
        generic "norm" (res_of norm) (fun out ->
            if List.length out <> List.length inp then fail "norm-row-count" ("result=" ^ string_of_rows out)
            else begin
-             let close s x y = qleb (qabs (qcminus (qcmult x s) y)) (qcmult two_m50 (qabs y)) in
+             let two_m49 = qcmult two_m50 (qcplus (qc_of_token "1:0") (qc_of_token "1:0")) in
+             (* x' = t*x within relative 2^-49 *)
+             let close t x' x = qleb (qabs (qcminus x' (qcmult t x))) (qcmult two_m49 (qabs (qcmult t x))) in
              let bad = ref [] in
-             List.iteri (fun i (((a', b'), (a, b)), (so, _)) ->
-                 let good = List.length a' = List.length a &&
-                            (match so with
-                             | None -> veqb a' a && qeqb b' b
-                             | Some s -> List.for_all2 (close s) a' a && close s b' b) in
-                 if not good then bad := i :: !bad) (List.combine (List.combine out inp) sf);
+             List.iteri (fun i ((a', b'), (a, b)) ->
+                 let entries' = a' @ [b'] and entries = a @ [b] in
+                 let good =
+                   List.length a' = List.length a &&
+                   (match List.find_opt (fun (_, x) -> not (qeqb x zero)) (List.combine entries' entries) with
+                    | None -> List.for_all (fun x' -> qeqb x' zero) entries'
+                    | Some (x0', x0) ->
+                      let t = qcdiv x0' x0 in
+                      qltb zero t && List.for_all2 (close t) entries' entries) in
+                 if not good then bad := i :: !bad) (List.combine out inp);
              (match !bad with
               | [] -> bump "norm_rows_certified"
               | l ->
@@ -150,7 +157,7 @@ let check (case : Sexp.t) : unit =
                     | InclNo x, _ -> Printf.sprintf " x=%s satisfies the result but not the input;" (string_of_vec x)
                     | _, InclNo x -> Printf.sprintf " x=%s satisfies the input but not the result;" (string_of_vec x)
                     | _ -> "") in
-                fail "norm-row-not-multiple" (Printf.sprintf "rows %s of the result are not (row, bias)/|row| of the input rows;%s result=%s"
+                fail "norm-row-not-multiple" (Printf.sprintf "rows %s of the result are not positive multiples of the corresponding input rows (row and bias);%s result=%s"
                                                 (String.concat "," (List.map string_of_int (List.rev l))) pt (string_of_rows out)));
              (* mirror: bit-exact quotients *)
              let exact = List.for_all2 (fun ((a', b'), (a, b)) (so, f) ->
@@ -181,7 +188,9 @@ let check (case : Sexp.t) : unit =
             (* no remaining row is implied by the others with slack delta*|a|_1 *)
             List.iteri (fun i (ai, bi) ->
                 let others = List.filteri (fun j _ -> j <> i) out in
-                match implied_by_margin nn others ai bi (qcmult delta (norm1 ai)) with
+                (* slack delta*|a|_1 (delta for a zero row) *)
+                let d = if vall_zero ai then delta else qcmult delta (norm1 ai) in
+                match implied_by_margin nn others ai bi d with
                 | Some false -> bump "irredundant_certified"
                 | Some true -> fail "red-implied-row-kept" (Printf.sprintf "row %d (%s<=%s) of the result is implied by the other remaining rows with slack 1e-6*|a|_1; result=%s"
                                                               i (string_of_vec ai) (string_of_qc bi) (string_of_rows out))
